@@ -34,7 +34,7 @@ HasGoodSig(s) == \E q \in 1..Len(s) : s[q].t = "sig" /\ s[q].q = "good"
 
 \* environments: every lock of the fragment satisfied / not satisfied
 Envs(m, ctx) ==
-  {w.env : w \in {x \in WorldsOfCtx(m, ctx) : x.sigs = {} /\ x.pre = {}}}
+  {Env(RulesOf(ctx), TRUE, l, s, v) : l \in LockCands(m), s \in SeqCands(m), v \in VerCands(m)}
 
 OutLen(base) == IF base = "V" THEN 0 ELSE 1
 
